@@ -42,6 +42,7 @@ type scriptCase struct {
 	Kind  string   `json:"kind"` // "script"
 	Seed  uint64   `json:"seed"`
 	Mode  string   `json:"mode,omitempty"` // walk | mutated | random | (explicit ops)
+	Shape string   `json:"shape,omitempty"`
 	Local []int    `json:"local"`
 	Ops   []opJ    `json:"ops,omitempty"`
 	Desc  string   `json:"desc,omitempty"`
@@ -526,7 +527,12 @@ func randomScript(r *rng.R, s *scriptRunner, n int) {
 
 func runScriptCase(w *cw.Writer, sc scriptCase, kind string) error {
 	r := rng.New(sc.Seed)
-	d, sel, desc := genWorld(r, "")
+	shape := sc.Shape
+	if shape == "" && len(sc.Ops) == 0 && r.P(1, 5) {
+		shape = "prefix" // sibling segments that are string prefixes of each other
+	}
+	d, sel, desc := genWorld(r, shape)
+	sc.Shape = shape
 	tb := newTables()
 	u := newUniverse(d)
 	n := len(d.Blocks)
